@@ -95,8 +95,9 @@ func (i *Interface) flushWriteCache(percentThreshold int) {
 		return
 	}
 
-	// Write the full cache in a batch operation.
-	batchPut := i.PutMany(i.options.DelayCachedWrites)
+	// Write the full cache in a batch operation. The interface options were
+	// applied when the records were put.
+	batchPut := i.putMany(i.options.DelayCachedWrites, false)
 	for _, r := range i.writeCache {
 		err := batchPut(r)
 		if err != nil {
